@@ -61,6 +61,13 @@ def gen(rng, tier, i):
         li = lis[rng.choice(["http", "socks"])]
         hs, proto = sc.client_handshake(li, oip, sink_port, variant="5p" if li["kind"] == "socks" else None)
         sc.add_client("bp%d" % k, li, hs + [op("send", fill=[77 + k, 3_000_000], timeout_ms=3600000, on_fail="continue"), op("sleep", ms=3600000)], start_ms=t_stall + 10 + k, background=True)
+    # a QUIC client stuck in the middle of its handshake: its first flight arrives, nothing ever reaches it
+    if use_quic and rng.random() < 0.6:
+        qip = sc.client_ip()
+        sc.faults.append({"at_ms": 0, "kind": "mute", "ip": qip})
+        sc.actors.append({"kind": "quic_client", "id": "qmute", "bind": "%s:5999" % qip, "dst": lis["quic"]["addr"], "start_ms": t_stall, "background": True,
+                          "tls": {"sni": "proxy.sim", "ca": G.pki("ca1.crt")}, "ops": [op("sleep", ms=3600000)]})
+        stalled.append({"cid": "qmute", "lk": "quic-handshake", "j": 0})
     # requests whose *upstream* never answers: a destination that swallows the SYN (direct connector; the connect gives up
     # after 127 s), or an upstream proxy that accepts the connection and never replies to the CONNECT
     dead_ip = sc.origin_ip()
